@@ -1146,6 +1146,9 @@ AfSituations(pre, e, post) ==
      Sit("af.negative_tick_group", sw.startGroup < 0 \/ sw.endGroup < 0),
      Sit("af.ends_on_group_boundary", sw.endOnBoundary),
      Sit("af.major_swap", ~(o2.majorTs \doteq o.majorTs)),
+     Sit("af.price_moved_exactly_by_the_major_swap_threshold",
+         LET lo_ == BMin(pre.pool[APool(e)].sqrtPrice, post.pool[APool(e)].sqrtPrice) hi_ == BMax(pre.pool[APool(e)].sqrtPrice, post.pool[APool(e)].sqrtPrice) IN
+         BDiv(lo_ \otimes sw.majorFactor, BPow2(64)) \doteq hi_),
      Sit("af.control_factor_zero", o.factor = 0),
      Sit("af.group_size_below_spacing", o.groupSize < pre.pool[p].spacing) }
 
@@ -1226,6 +1229,11 @@ OtherSituations(pre, e, post) ==
     Sit("twohop.exact_out", e.name \in {"two_hop_swap", "two_hop_swap_v2"} /\ ~e.args.exactIn),
     Sit("twohop.explicit_limit", e.name \in {"two_hop_swap", "two_hop_swap_v2"} /\ (~(e.args.limit1 \doteq 0) \/ ~(e.args.limit2 \doteq 0))),
     Sit("twohop.leg_crosses_a_tick", e.name \in {"two_hop_swap", "two_hop_swap_v2"} /\ \E k \in DOMAIN e.swaps : \E i \in DOMAIN e.swaps[k].steps : "crossed" \in DOMAIN e.swaps[k].steps[i]),
+    Sit("twohop.repackaged", e.name = "two_hop_swap_v2" /\ e.pack.present),
+    Sit("twohop.repackaged.second_leg_leaves_its_first_array", e.name = "two_hop_swap_v2" /\ e.pack.present /\
+          LET q == e.slots.whirlpool_two.id IN ArrIdx(pre.pool[q].tick, pre.pool[q].spacing) # ArrIdx(post.pool[q].tick, post.pool[q].spacing)),
+    Sit("twohop.repackaged.first_leg_leaves_its_first_array", e.name = "two_hop_swap_v2" /\ e.pack.present /\
+          LET q == e.slots.whirlpool_one.id IN ArrIdx(pre.pool[q].tick, pre.pool[q].spacing) # ArrIdx(post.pool[q].tick, post.pool[q].spacing)),
     Sit("probe.succeeded", e.probe) }
 
 (* instruction x feature: which instructions succeeded on which kind of pool / position (transfer-fee mints, adaptive
@@ -1369,6 +1377,8 @@ C20Liquidity(pre, e, post) ==
         locked but, being non-transferable, not handed over.
    (W2) PoolInitialized / PositionOpened events carry exactly what was created.
    (W3) Position bundles: created empty, with exactly one bundle token, held by the named owner, without mint authority.
+   (W7) Closing a position burns its token and closes the token account (and the Token-2022 position mint; an SPL mint stays, with
+        supply 0); deleting a bundle likewise; a lock records the time and the (only) lock type in its lock config.
    (W6) SDK: collect_fees_quote / collect_rewards_quote on the state before an update_fees_and_rewards equal what the program then
         records as owed to the position (fees; rewards at the instruction's clock).
    (W4) migrate_repurpose_reward_authority_space: possible exactly once per old-layout pool; it clears the two repurposed
@@ -1453,6 +1463,22 @@ WiderOK(pre, e, post) ==
                 /\ ChangedKeys(e.diff, "bundle") = {b} /\ ChangedKeys(e.diff, "pos") = {} /\ ChangedKeys(e.diff, "pool") = {})
      ELSE TRUE
   /\ IF ChangedKeys(e.diff, "pos") # {} \/ ChangedKeys(e.diff, "ta") # {} THEN W5State(post) ELSE TRUE
+  /\ IF e.name \in {"close_position", "close_position_with_token_extensions"}
+     THEN LET m == Id(e, "position_mint") ta == Id(e, "position_token_account") IN
+          Wider("W7.close_burns_the_token_and_closes_its_accounts",
+                /\ ta \notin DOMAIN post.tok
+                /\ IF e.name = "close_position" THEN m \in DOMAIN post.mint /\ post.mint[m].supply \doteq 0     \* an SPL mint cannot be closed
+                   ELSE m \notin DOMAIN post.mint)
+     ELSE TRUE
+  /\ IF e.name = "delete_position_bundle"
+     THEN LET m == Id(e, "position_bundle_mint") ta == Id(e, "position_bundle_token_account") IN
+          Wider("W7.bundle_deletion_burns_the_token_and_closes_its_accounts",
+                ta \notin DOMAIN post.tok /\ m \in DOMAIN post.mint /\ post.mint[m].supply \doteq 0 /\ Id(e, "position_bundle") \notin DOMAIN post.bundle)
+     ELSE TRUE
+  /\ IF e.name = "lock_position"
+     THEN LET k == Id(e, "position") IN
+          Wider("W7.lock_config_records_time_and_type", k \in DOMAIN post.lock /\ post.lock[k].ts \doteq e.now /\ post.lock[k].type = 0 /\ post.lock[k].key = Id(e, "lock_config"))
+     ELSE TRUE
   /\ IF e.name = "update_fees_and_rewards" /\ "sdkOwed" \in DOMAIN e /\ e.sdkOwed.present
      THEN LET k   == Id(e, "position")
               x   == pre.pos[k]
